@@ -36,6 +36,17 @@ func c06Case(c *core.Ctx, idx int) {
 			rec.Count("pointer_shaped_types", 1)
 		}
 	}
+	if idx%13 == 6 && tc.cfg.Null {
+		// slices of the null types: elements that are wider in memory than on the wire (as slice
+		// elements they lose invalidity on the way back - known finding D24 - but this check only writes)
+		el := []reflect.Type{model.NullFloatT, model.NullIntT, model.NullBoolT, model.NullTimeT, model.NullStringT}[(idx/13)%5]
+		st := reflect.SliceOf(el)
+		tc.typ = []reflect.Type{
+			reflect.StructOf([]reflect.StructField{{Name: "F", Type: st, Tag: `plenc:"1"`}, {Name: "S", Type: reflect.TypeOf(""), Tag: `plenc:"2"`}, {Name: "G", Type: st, Tag: `plenc:"3"`}}),
+			reflect.StructOf([]reflect.StructField{{Name: "A", Type: reflect.TypeOf(int64(0)), Tag: `plenc:"1"`}, {Name: "F", Type: st, Tag: `plenc:"2"`}}),
+		}[(idx/65)%2]
+		rec.Count("slices_of_null_types", 1)
+	}
 	if _, err := tc.p.CodecForType(tc.typ); err != nil {
 		rec.Violation("valid-type-rejected", fmt.Sprintf("[%s] %v\n  type %s", tc.name, err, typeString(tc.typ)), nil)
 		return
